@@ -11,6 +11,8 @@ package store
 //@ fun STot(x Store) real := is(x, *SparseStore) ? MTot(as(x, *SparseStore)) : as(x, *DenseStore).count
 //@ pred SInv(x Store) := x != nil && (is(x, *SparseStore) ? MInv(as(x, *SparseStore)) : (is(x, *DenseStore) ? DInv(as(x, *DenseStore)) : (is(x, *CollapsingLowestDenseStore) ? CLInv(as(x, *CollapsingLowestDenseStore)) : (is(x, *CollapsingHighestDenseStore) && CHInv(as(x, *CollapsingHighestDenseStore))))))
 // Exact stores keep every index apart (the collapsing stores do not).
+// configuration that no operation changes (the bin limit of the collapsing stores)
+//@ fun SConf(x Store) int := is(x, *CollapsingLowestDenseStore) ? as(x, *CollapsingLowestDenseStore).maxNumBins : (is(x, *CollapsingHighestDenseStore) ? as(x, *CollapsingHighestDenseStore).maxNumBins : 0)
 //@ pred SExact(x Store) := is(x, *SparseStore) || is(x, *DenseStore)
 
 //@ func Store.Add
@@ -18,7 +20,7 @@ package store
 //@   requires SInv(this) && in32(index)
 //@   ensures SInv(this) && dyntype(this) == old(dyntype(this)) && STot(this) == old(STot(this)) + 1.0
 //@   ensures view: SExact(this) ==> (forall k int :: SView(this, k) == old(SView(this, k)) + (k == index ? 1.0 : 0.0))
-//@   ensures stable: footprintStable(this)
+//@   ensures stable: footprintStable(this) && SConf(this) == old(SConf(this))
 //@   modifies footprint(this)
 
 //@ func Store.AddWithCount
@@ -26,7 +28,7 @@ package store
 //@   requires SInv(this) && in32(index) && count >= 0.0
 //@   ensures SInv(this) && STot(this) == old(STot(this)) + count
 //@   ensures view: SExact(this) ==> (forall k int :: SView(this, k) == old(SView(this, k)) + (k == index ? count : 0.0))
-//@   ensures stable: footprintStable(this)
+//@   ensures stable: footprintStable(this) && SConf(this) == old(SConf(this))
 //@   modifies footprint(this)
 
 //@ func Store.AddBin
@@ -34,7 +36,7 @@ package store
 //@   requires SInv(this) && in32(bin.index) && bin.count >= 0.0
 //@   ensures SInv(this) && STot(this) == old(STot(this)) + bin.count
 //@   ensures view: SExact(this) ==> (forall k int :: SView(this, k) == old(SView(this, k)) + (k == bin.index ? bin.count : 0.0))
-//@   ensures stable: footprintStable(this)
+//@   ensures stable: footprintStable(this) && SConf(this) == old(SConf(this))
 //@   modifies footprint(this)
 
 //@ func Store.IsEmpty
@@ -63,7 +65,7 @@ package store
 //@   serves C04 C15
 //@   requires SInv(this)
 //@   ensures SInv(this) && STot(this) == 0.0 && (forall k int :: SView(this, k) == 0.0)
-//@   ensures stable: footprintStable(this)
+//@   ensures stable: footprintStable(this) && SConf(this) == old(SConf(this))
 //@   modifies footprint(this)
 
 //@ func Store.Copy
@@ -79,7 +81,7 @@ package store
 //@   ensures refuse: w <= 0.0 ==> result != nil && STot(this) == old(STot(this)) && (forall k int :: SView(this, k) == old(SView(this, k)))
 //@   ensures ok: w > 0.0 ==> result == nil && STot(this) == w * old(STot(this)) && (forall k int :: SView(this, k) == w * old(SView(this, k)))
 //@   ensures SInv(this)
-//@   ensures stable: footprintStable(this)
+//@   ensures stable: footprintStable(this) && SConf(this) == old(SConf(this))
 //@   modifies footprint(this)
 
 // ForEach calls f exactly once for every index of positive weight, with that weight, until f asks to stop.
@@ -126,7 +128,7 @@ package store
 //@   ensures SInv(this) && SInv(store) && STot(this) == old(STot(this)) + old(STot(store))
 //@   ensures view: SExact(this) ==> (forall k int :: SView(this, k) == old(SView(this, k)) + old(SView(store, k)))
 //@   ensures arg: STot(store) == old(STot(store)) && (forall k int :: SView(store, k) == old(SView(store, k)))
-//@   ensures stable: footprintStable(this) && footprintStable(store)
+//@   ensures stable: footprintStable(this) && footprintStable(store) && SConf(this) == old(SConf(this))
 //@   modifies footprint(this), footprint(store)
 
 // cumulative weight of the indexes <= k, at the level of the abstract content
@@ -141,7 +143,7 @@ package store
 //@   ensures found: max(rank, 0.0) < STot(this) ==> in32(result) && SView(this, result) > 0.0 && SCum(this, result) > max(rank, 0.0) && SCum(this, result - 1) <= max(rank, 0.0) using TotExt(SCumArr(this, result), DCumArr(as(this, *DenseStore), result)), TotExt(SCumArr(this, result - 1), DCumArr(as(this, *DenseStore), result - 1))
 //@   ensures clamp: max(rank, 0.0) >= STot(this) && STot(this) > 0.0 && SExact(this) ==> in32(result) && SView(this, result) > 0.0 && (forall k int :: k > result ==> SView(this, k) == 0.0)
 //@   ensures SInv(this) && STot(this) == old(STot(this)) && (forall k int :: SView(this, k) == old(SView(this, k)))
-//@   ensures stable: footprintStable(this)
+//@   ensures stable: footprintStable(this) && SConf(this) == old(SConf(this))
 //@   modifies footprint(this)
 
 // Framing: a store whose footprint is untouched between two states keeps its invariant, total and content.
@@ -156,6 +158,7 @@ package store
 //@ opaque SView
 //@ opaque SCum
 //@ opaque SExact
+//@ opaque SConf
 
 //@ lemma STotNonneg(x Store)
 //@   serves C04 C12
